@@ -30,7 +30,7 @@ def run(tier):
         chk.clause('C12.D3', '?PivotGrowth column discipline')
         n = n2 = 0
         for p in _drv.PRECS:
-            f, fl, leaves = _gssvx.leaves_for(prog, eff, p, ilu=False, tier=tier, split=('Fact', 'Trans', 'A.Stype', 'ConditionNumber', 'PivotGrowth', 'info'))
+            f, fl, leaves = _gssvx.leaves_for(prog, eff, p, ilu=False, tier=tier, split=('Fact', 'Trans', 'A.Stype', 'ConditionNumber', 'PivotGrowth', 'info', 'B.ncol'))
             ctx = _expert.Ctx(prog, f, fl, p, False)
             _expert.run_leaf_groups(chk, 'C12', ctx, leaves, ('cond',), cfgname)
             n += len(leaves)
